@@ -445,6 +445,25 @@ func runC11(r *evid.Run) {
 			}
 		}
 	}
+	// a deeper tree: patterns that select a directory through "**" or by a middle component, files several levels
+	// below it (walk and Open must agree at every depth)
+	{
+		T := fsmodel.T0
+		f := func(p string, seed, hl int) fsmodel.Node {
+			return fsmodel.Node{Path: p, Kind: fsmodel.File, Perm: 0644, Mtime: T + int64(seed), Data: fsmodel.Content(seed, 5), HL: hl}
+		}
+		dd := func(p string) fsmodel.Node { return fsmodel.Node{Path: p, Kind: fsmodel.Dir, Perm: 0755, Mtime: T} }
+		deep := fsmodel.Tree{dd("a"), dd("a/d"), dd("a/d/v"), f("a/d/v/f", 70, 1), f("a/d/v/g", 71, 0), dd("a/d/v/w"), f("a/d/v/w/h", 72, 0), f("c", 70, 1), dd("v"), f("v/top", 73, 0)}
+		deep.Sort()
+		pats := []string{"**/v", "a/d", "**/d", "*/d/v", "!a/d/v/g", "a", "**/w", "v"}
+		for _, in := range patternLists(2, pats) {
+			for _, ex := range patternLists(1, pats) {
+				for _, under := range []string{"disk", "mem", "filter"} {
+					cases = append(cases, c11Case{Tree: deep, Include: in, Exclude: ex, Under: under})
+				}
+			}
+		}
+	}
 	r.Set("cases", len(cases))
 	par.Do(len(cases), par.Workers(), func(i int) {
 		c := cases[i]
